@@ -673,6 +673,140 @@ fn case(max: usize) -> BoxedStrategy<Case> {
     proptest::collection::vec(script(max), 1..=4).prop_map(|sessions| Case { sessions }).boxed()
 }
 
+// ------------------------------------------------------------------------------------------
+// back pressure: a TCP client that pipelines requests and reads the answers late and in small
+// pieces, so that the server's socket writes are short (partial) writes
+
+#[derive(Clone, Debug, PartialEq, Serialize, Deserialize)]
+pub struct Backpressure {
+    /// size of the stored value in KiB
+    pub value_kib: u8,
+    pub requests: u16,
+    /// the client starts reading only after this many ms
+    pub pause_ms: u16,
+    /// sizes of the client's reads (cycled)
+    pub read_sizes: Vec<u16>,
+}
+
+async fn run_backpressure(case: &Backpressure) -> Result<CaseReport, Failure> {
+    use tokio::io::{AsyncReadExt, AsyncWriteExt};
+    let port = crate::server::free_port();
+    let ws = WireServer::start("C13", |c| {
+        c.tcp_endpoint = Some(worterbuch::Endpoint { tls: false, bind_addr: [127, 0, 0, 1].into(), port });
+        c.tcp_disabled = false;
+    })
+    .await
+    .map_err(|e| Failure::new("c13.server", "server starts", e))?;
+    let res = async {
+        // wait for the tcp endpoint
+        let mut stream = None;
+        for _ in 0..2000 {
+            let sock = tokio::net::TcpSocket::new_v4().map_err(|e| Failure::new("c13.tcp", "socket", e.to_string()))?;
+            sock.set_recv_buffer_size(16 * 1024).ok();
+            match sock.connect(([127, 0, 0, 1], port).into()).await {
+                Ok(s) => {
+                    stream = Some(s);
+                    break;
+                }
+                Err(_) => tokio::time::sleep(Duration::from_millis(1)).await,
+            }
+        }
+        let Some(mut stream) = stream else {
+            return Err(Failure::new("c13.tcp", "the tcp endpoint accepts connections within 2 s", "it did not").sig(json!({"obs": "timeout"})));
+        };
+        let value = "v".repeat(case.value_kib.max(1) as usize * 1024);
+        let n = case.requests.max(1) as u64;
+        let mut burst = String::new();
+        burst.push_str(&json!({"set": {"transactionId": 1, "key": "bp/value", "value": value}}).to_string());
+        burst.push('\n');
+        for i in 0..n {
+            burst.push_str(&json!({"get": {"transactionId": 100 + i, "key": "bp/value"}}).to_string());
+            burst.push('\n');
+        }
+        stream.write_all(burst.as_bytes()).await.map_err(|e| Failure::new("c13.tcp", "requests are accepted", e.to_string()))?;
+        tokio::time::sleep(Duration::from_millis(case.pause_ms as u64)).await;
+        // read late and in small pieces
+        let mut data: Vec<u8> = vec![];
+        let mut lines: Vec<String> = vec![];
+        let mut ri = 0usize;
+        let want = n as usize + 2; // welcome, ack of the set, n states
+        let deadline = tokio::time::Instant::now() + Duration::from_secs(60);
+        while lines.len() < want {
+            let size = case.read_sizes.get(ri % case.read_sizes.len().max(1)).copied().unwrap_or(4096).max(1) as usize;
+            ri += 1;
+            let mut buf = vec![0u8; size];
+            match tokio::time::timeout(Duration::from_secs(20), stream.read(&mut buf)).await {
+                Ok(Ok(0)) => break,
+                Ok(Ok(k)) => data.extend_from_slice(&buf[..k]),
+                Ok(Err(e)) => return Err(Failure::new("c13.tcp", "answers can be read", e.to_string())),
+                Err(_) => return Err(Failure::new("c13.tcp_timeout", "answers within 20 s", "none").sig(json!({"obs": "timeout"}))),
+            }
+            while let Some(pos) = data.iter().position(|b| *b == b'\n') {
+                let line: Vec<u8> = data.drain(..=pos).collect();
+                lines.push(String::from_utf8_lossy(&line[..line.len() - 1]).into_owned());
+            }
+            if tokio::time::Instant::now() > deadline {
+                return Err(Failure::new("c13.tcp_timeout", "all answers within 60 s", format!("{} of {want}", lines.len())).sig(json!({"obs": "timeout"})));
+            }
+        }
+        if lines.len() < want {
+            return Err(Failure::new("c13.backpressure.closed", format!("{want} messages"), format!("connection closed after {}", lines.len())));
+        }
+        for (i, l) in lines.iter().enumerate().skip(1) {
+            let v: Value = serde_json::from_str(l).map_err(|e| {
+                Failure::new("c13.backpressure.garbled", format!("message #{i} is a well formed server message"), format!("{e}: {}…", &l.chars().take(120).collect::<String>()))
+                    .sig(json!({"obs": "c13.backpressure.garbled"}))
+            })?;
+            if i == 1 {
+                if kind_and_tid(&v) != Some(("ack".into(), 1)) {
+                    return Err(Failure::new("c13.backpressure.answer", "ack 1", l.chars().take(200).collect::<String>()));
+                }
+                continue;
+            }
+            let tid = 100 + (i as u64 - 2);
+            if v["state"]["transactionId"].as_u64() != Some(tid) || v["state"]["value"].as_str() != Some(value.as_str()) {
+                return Err(Failure::new(
+                    "c13.backpressure.answer",
+                    format!("state with transaction id {tid} and the stored value of {} bytes", value.len()),
+                    format!("{}…", l.chars().take(160).collect::<String>()),
+                )
+                .sig(json!({"obs": "c13.backpressure.answer"})));
+            }
+        }
+        Ok(())
+    }
+    .await;
+    let stop = ws.stop().await;
+    match res {
+        Err(f) if f.signature.get("obs").and_then(|o| o.as_str()) == Some("timeout") => return Ok(CaseReport { inconclusive: true, ..Default::default() }),
+        Err(f) => return Err(f),
+        Ok(()) => {}
+    }
+    stop.map_err(|e| Failure::new("c13.server_crashed", "clean stop", e))?;
+    let volume = case.value_kib as u64 * 1024 * case.requests as u64;
+    Ok(CaseReport {
+        nontrivial: volume > 1 << 20,
+        classes: if volume > 1 << 20 { vec!["more_than_1_MiB_of_answers_pending"] } else { vec![] },
+        counters: vec![("answer_bytes", volume)],
+        ..Default::default()
+    })
+}
+
+pub fn check_backpressure(case: &Backpressure) -> Result<CaseReport, Failure> {
+    block_on(run_backpressure(case))
+}
+
+fn backpressure_case() -> BoxedStrategy<Backpressure> {
+    (
+        prop_oneof![1..8u8, 8..48u8],
+        prop_oneof![20..120u16, 120..400u16],
+        0..300u16,
+        proptest::collection::vec(prop_oneof![1..64u16, 64..2000u16, 2000..20000u16], 1..6),
+    )
+        .prop_map(|(value_kib, requests, pause_ms, read_sizes)| Backpressure { value_kib, requests, pause_ms, read_sizes })
+        .boxed()
+}
+
 pub fn run(cfg: &RunCfg) -> i32 {
     let mut check = Check::new(cfg, "exploration");
     check.assume("wire engine: the whole server in process, reached over its unix domain socket with newline delimited JSON; all requests of a session are written in one burst followed by a sentinel get; answers are collected until the sentinel's answer arrives (requests answered from spawned tasks - acquireLock - get up to 10 s more)");
@@ -689,6 +823,24 @@ pub fn run(cfg: &RunCfg) -> i32 {
     );
     if let Some(v) = v {
         check.violate("random", &v.case, v.failure);
+    }
+    if !check.has_violation() {
+        // fixed small budget: every case moves megabytes through a socket
+        let n = match cfg.tier {
+            crate::util::Tier::Quick => 48,
+            crate::util::Tier::Thorough => 2_000,
+        };
+        let n = ((n as f64) * cfg.scale).max(1.0) as u64;
+        let (agg, v) = run_prop(cfg, "backpressure", n, backpressure_case, check_backpressure);
+        check.add_part(
+            "backpressure",
+            "a TCP client with a 16 KiB receive buffer stores a value of 1-47 KiB, pipelines 20-400 gets of it in one burst, starts reading only after 0-300 ms and then reads in pieces of generated sizes (1 byte .. 20 KB), so that the server's socket writes are partial writes; oracle: every line received is a well formed message, the answers carry the ids of the requests in order and the complete stored value; non-trivial = more than 1 MiB of answers were pending; distinct = case",
+            false,
+            agg,
+        );
+        if let Some(v) = v {
+            check.violate("backpressure", &v.case, v.failure);
+        }
     }
     check.finish()
 }
